@@ -62,6 +62,7 @@ Ev == [ev |-> "c17", text |-> text, width |-> width, res |-> res,
        status |-> (IF fault = "none" THEN "ok" ELSE "panic")]
 AllOk(cs) == \A x \in 1..Len(cs) : cs[x].ok \/ (PrintT(<<"FAILED", cs[x].p, cs[x].c, cs[x].r>>) /\ FALSE)
 PropInplace == pc = "done" => AllOk(Judge_c17(Ev))
-Terminates == <>(pc = "done" \/ pc = "type")
+\* once a call has begun it returns (checked under weak fairness of the step actions: the algorithms terminate)
+Terminates == (pc # "type") ~> (pc = "done")
 Emit == pc = "done" => PrintT(<<"REPLAY", ToJson([k |-> "c17", text |-> text, width |-> width])>>)
 =============================================================================
